@@ -5,6 +5,15 @@ import re
 from sly import Lexer
 
 
+_NUCLIDE_INPUTS = re.compile(r"\*?((m|mx|mpn|xs)\d+|awtab|drxs)(:|$)", re.I)
+"""
+The names of the data inputs that hold nuclide identifiers.
+
+This lives outside the lexer classes: SLY takes every class attribute with a ``pattern`` for a token rule, and
+a compiled expression in the class became a phantom rule of the master regular expression.
+"""
+
+
 class MCNP_Lexer(Lexer):
     """
     Base lexer for all MCNP lexers.
@@ -212,10 +221,6 @@ class MCNP_Lexer(Lexer):
             t.type = "NUM_MULTIPLY"
         return t
 
-    _NUCLIDE_INPUTS = re.compile(r"\*?((m|mx|mpn|xs)\d+|awtab|drxs)(:|$)", re.I)
-    """
-    The names of the data inputs that hold nuclide identifiers.
-    """
 
     def _lists_nuclides(self, t):
         """
@@ -230,7 +235,7 @@ class MCNP_Lexer(Lexer):
             if not is_comment(line):
                 words = line.split("$")[0].split()
                 if words:
-                    return self._NUCLIDE_INPUTS.match(words[0]) is not None
+                    return _NUCLIDE_INPUTS.match(words[0]) is not None
         return False
 
     # note: / is not escaping - since this doesn't not need escape in this position
